@@ -42,6 +42,11 @@ def gen(rng, tier, ctx):
     cases.append({"package": "com.ex", "vcode": 7, "vname": "1.0", "perms": [("android.permission.INTERNET", None, True)], "sdk": (21, 30, None),
                   "comps": [("activity", ".A", True, [[MAIN], [LAUNCHER]], True), ("activity", ".B", True, [[MAIN, LAUNCHER]], True)],
                   "features": [], "libs": [], "ns_on_tags": False})
+    for names in ((".Alias", ".Main"), ("Alias", "Main"), (".Zeta", ".Alpha"), ("com.ex.app.A", ".B")):
+        cases.append({"package": "com.ex.app", "vcode": 1, "vname": None, "perms": [("android.permission.CAMERA", 18, True), ("android.permission.CAMERA", None, True)],
+                      "sdk": (None, None, None),
+                      "comps": [("activity-alias", names[0], True, [[MAIN, LAUNCHER]], True), ("activity", names[1], True, [[MAIN, LAUNCHER]], True)],
+                      "features": [], "libs": [], "ns_on_tags": False})
     for _ in range(200 if tier == "thorough" else 45):
         perms = []
         for _ in range(rng.choice((0, 1, 2, 4))):
@@ -127,7 +132,7 @@ def impl(case):
     uses = s((n or "") + "\x00" + ("\x00" if mx is None else "\x01" + chr(mx)) for n, mx in a.uses_permissions)
     return {"tree": walk(root),
             "out": [a.get_package(), a.get_androidversion_code(), a.get_androidversion_name(), s(set(a.get_permissions())), uses,
-                    s(a.get_activities()), s(a.get_services()), s(a.get_receivers()), s(a.get_providers()), s(a.get_main_activities()),
+                    s(a.get_activities()), s(a.get_services()), s(a.get_receivers()), s(a.get_providers()), s(a.get_main_activities()), a.get_main_activity(),
                     a.get_min_sdk_version(), a.get_target_sdk_version(), a.get_max_sdk_version(), a.get_effective_target_sdk_version(),
                     s(a.get_features()), s(a.get_libraries())],
             "main": a.get_main_activity(), "perm_dups": len(a.get_permissions()) - len(set(a.get_permissions()))}
@@ -172,20 +177,18 @@ def oracle(case, res):
     for kind in ("activity", "service", "receiver", "provider"):
         want.append(sorted(fmtname(pkg, n) for k, n, _, _, _ in m["comps"] if k == kind))
     want.append(sorted({n for k, n, _, fl, en in m["comps"] if k in ("activity", "activity-alias") and en and any(MAIN in f and LAUNCHER in f for f in fl)}))
+    cands = sorted({fmtname(pkg, n) for n in want[9]})
+    acts = set(want[5])
+    want.append(None if not cands else ([c for c in cands if c in acts] or cands)[0])
     want += [None if mn is None else str(mn), None if tg is None else str(tg), None if mx is None else str(mx),
              tg if tg is not None else mn if mn is not None else 1, sorted(m["features"]), sorted(m["libs"])]
     names = ["package", "version code", "version name", "permissions", "permissions with maxSdkVersion", "activities", "services", "receivers",
-             "providers", "main activities", "minSdkVersion", "targetSdkVersion", "maxSdkVersion", "effective target SDK", "features", "libraries"]
+             "providers", "main activities", "main activity", "minSdkVersion", "targetSdkVersion", "maxSdkVersion", "effective target SDK", "features", "libraries"]
     for nm, g, w in zip(names, out, want):
         if g != w:
             return "%s: reported %r, the manifest declares %r" % (nm, g, w)
     if res["perm_dups"]:
         return "get_permissions lists %d duplicates" % res["perm_dups"]
-    mains = want[9]
-    if len(mains) == 1 and res["main"] != fmtname(pkg, mains[0]):
-        return "main activity: reported %r, the manifest declares %r" % (res["main"], fmtname(pkg, mains[0]))
-    if not mains and res["main"] is not None:
-        return "main activity: reported %r, the manifest declares none" % (res["main"],)
     return None
 
 
